@@ -397,8 +397,8 @@ def run(pid, tier):
     res.trusted = TRUSTED + (HOIST_TRUSTED if pid == 'C06' else [])
     res.assumptions = ['pick returns a name outside the set it is given (the real stream never repeats: C03_generated_names_distinct for lengths 1-2)',
                        'the binding table handed to NameAssigner is well formed (wf_bindingb, checked on every table by leg R)']
-    translators = {'C03': ['namegen', 'pipeline'], 'C04': ['namegen', 'pipeline'], 'C06': [], 'C09': ['pipeline'], 'C10': ['pipeline'], 'C11': ['pipeline']}[pid]
-    models = ['Model/RenamerRun.vo', 'Proofs/RenamerProofs.vo', 'Model/ResolveRun.vo'] + (['Model/Hoist.vo'] if pid == 'C06' else [])
+    translators = {'C03': ['namegen', 'pipeline', 'resolve'], 'C04': ['namegen', 'pipeline', 'resolve'], 'C06': [], 'C09': ['pipeline'], 'C10': ['pipeline'], 'C11': ['pipeline']}[pid]
+    models = ['Model/RenamerRun.vo', 'Proofs/RenamerProofs.vo', 'Model/ResolveRun.vo'] + (['Model/Hoist.vo'] if pid == 'C06' else []) + (['Model/ScopeRun.vo'] if pid in ('C03', 'C04') else [])
     common.standard_proof_phase(res, translators, 'Properties/%s.v' % pid, model_targets=models)
     r = common.rng(pid)
     eff = tier if (not res.broken or tier == 'thorough') else 'search'
@@ -410,6 +410,9 @@ def run(pid, tier):
     with common.coq_lock():
         nR, nb, nren = scope_leg.leg_R(res, cases, pid.lower() + 'R')
         nH = leg_hoist_model(res, r) if pid == 'C06' else 0
+        nA = (0, 0, 0, 0)
+        if pid in ('C03', 'C04') and not any(k == 'translator' and 'resolve' in str(w) for k, w in res.broken):
+            nA = scope_leg.leg_A(res, srcs if eff != 'quick' else srcs[:160], pid.lower() + 'A')
     bad_ref = scope_leg.leg_S(res, srcs)
     if bad_ref > max(2, len(srcs) // 50):
         res.broken.append(('reference-model', 'harness/pyscope.py disagrees with CPython symtable on %d of %d programs: the oracle is not trustworthy' % (bad_ref, len(srcs))))
@@ -428,7 +431,7 @@ def run(pid, tier):
     elif pid == 'C11':
         nO = oracle_c11(res, r, eff)
     res.samples = [srcs[len(progs.DIRECTED) + 1][:400] if len(srcs) > len(progs.DIRECTED) + 1 else srcs[0], progs.DIRECTED[4]]
-    res.coverage.update({'leg_R_programs': nR, 'leg_R_bindings': nb, 'leg_R_bindings_renamed': nren, 'leg_S_reference_resolver_disagreements': bad_ref, 'hoist_model_cases': nH,
+    res.coverage.update({'leg_A_programs': nA[0], 'leg_A_references_resolved_by_model': nA[1], 'leg_A_occurrences_vs_reference_pass': nA[2], 'leg_A_namespaces_compared': nA[3], 'leg_R_programs': nR, 'leg_R_bindings': nb, 'leg_R_bindings_renamed': nren, 'leg_S_reference_resolver_disagreements': bad_ref, 'hoist_model_cases': nH,
                          'oracle_cases': nO, 'evaluations': nR + nO + nH, 'distinct_nontrivial': len(set(srcs)),
                          'rule': 'programs: directed scope shapes + random scope-rich modules (nested functions/classes/lambdas/comprehensions, global/nonlocal, imports, except/with/for/match targets, walrus); leg R case = (program, option set) whose whole binding table is run through the Coq model; non-trivial = distinct program text'})
     if nR and nren < 20:
